@@ -3532,7 +3532,15 @@ HashtableMid<KeyType,ValueType,HashFunctorType,SubclassType>::SwapWithTable(cons
    if ((myE)||(hisE))
    {
            if (myE == hisE)   return B_NO_ERROR;  // swapping with myself is a no-op
-      else if ((myE)&&(hisE)) {muscleSwap(myE->_value, hisE->_value); return B_NO_ERROR;}
+      else if ((myE)&&(hisE))
+      {
+         muscleSwap(myE->_value, hisE->_value);
+
+         // both entries have a new value now, so (as in Put()) auto-sorting tables must move them to their sorted positions
+         static_cast<SubclassType *>(this)->MoveIterationEntryToCorrectPositionAux(myE);
+         static_cast<RHSSubclassType *>(&swapTable)->MoveIterationEntryToCorrectPositionAux(hisE);
+         return B_NO_ERROR;
+      }
       else if (myE)           return (swapTable.PutAux(hash, swapMe, HT_PlunderValue( myE->_value), NULL, NULL) != NULL) ? this->RemoveAux(     myE->_hash, swapMe, NULL) : B_OUT_OF_MEMORY;
       else                    return (    this->PutAux(hash, swapMe, HT_PlunderValue(hisE->_value), NULL, NULL) != NULL) ? swapTable.RemoveAux(hisE->_hash, swapMe, NULL) : B_OUT_OF_MEMORY;
    }
